@@ -39,6 +39,16 @@ def gen_cases(seed, tier, n):
             tracegen.lookalike_launch_names(c, _r.Random(seed * 31337 + i))     # linked runtime calls whose names only contain a launch name
         if i % 3 == 1:
             tracegen.relabel_ranks(c)      # a subset of a job: rank ids are not 0..n-1, and not listed in order
+        if i % 7 == 4:
+            # the device rows of all streams of a rank are written under ONE thread id (a trace viewer row per device instead of per stream, as
+            # some exporters do): a queue is a stream's, whatever row the activity is drawn on
+            for rk in c["ranks"].values():
+                dev = [e for e in rk["events"] if e.get("ph") == "X" and isinstance(e.get("args"), dict) and isinstance(e["args"].get("stream"), int)
+                       and e["args"]["stream"] > 0]
+                if dev:
+                    t0 = min(e["tid"] for e in dev)
+                    for e in dev:
+                        e["tid"] = t0
         if i % 10 == 7:
             fw.set_quarter_us(c)           # quarter-microsecond resolution (framework.resolution); files in every second such case
             c["params"]["files"] = i % 20 == 7
@@ -85,6 +95,9 @@ def _run_impl(case, d):
         out["bw_error"] = type(e).__name__ + ": " + str(e)[:200]
     if case["params"]["files"] and "queue" in out and "bw" in out:
         try:
+            if case.get("case_no", 0) % 2 == 0:
+                # history: the annotated files had been written once before by the same object; writing them again gives the same files
+                ta.generate_trace_with_counters(ranks=ranks)
             ta.generate_trace_with_counters(ranks=ranks)
             files = {}
             for r in ranks:
